@@ -1,7 +1,7 @@
 (* C12: the WARP-tag clause for EVERY coalesced warp segment, whatever stops, delays or BPM changes sit on or inside it:
    at the time its start is reached, beat_at under the WARP tag answers the segment's start. *)
 From Coq Require Import List ZArith QArith Bool Lia Lqa Setoid Sorting.Sorted Arith.
-From SV Require Import Sx Beat Engine Proofs.EngineFacts Proofs.Hittable Proofs.TimeLaw Proofs.BeatAt Proofs.WarpElapse.
+From SV Require Import Sx Beat Engine Proofs.EngineFacts Proofs.Hittable Proofs.TimeLaw Proofs.BeatAt Proofs.WarpElapse Proofs.ZeroTags Proofs.InPause.
 Import ListNotations.
 Open Scope Q_scope.
 
@@ -175,10 +175,165 @@ Proof.
     + unfold sWs. rewrite St_last. cbn [advance s_tag mkW e_tag]. lia.
     + exact Htags.
 Qed.
+
+(* ---- the default tag: the furthest beat reached at that time (stops and delays of positive length) ---- *)
+Section Furthest.
+Hypothesis Hpos : forall r, In r (td_stops td) \/ In r (td_delays td) -> 0 < snd r.
+
+Lemma state_ge : forall N0 N', R = N0 ++ N' -> Tws <= s_time (St' (P ++ mkW s :: N0)).
+Proof.
+  intros N0 N' ER. pose proof sorted_all as S. rewrite sts_split3 in S. apply SS_app_inv in S as (_ & B & _).
+  apply StronglySorted_inv in B as [_ Hall]. rewrite Forall_forall in Hall.
+  destruct N0 as [|z N1]; [cbn [app]; unfold Tws, sWs; lra|].
+  assert (Ef : fold_left advance (z :: N1) sWs = St' (P ++ mkW s :: z :: N1)) by (unfold sWs, St; rewrite <- fold_left_app, <- app_assoc; reflexivity).
+  rewrite <- Ef. apply Hall. rewrite ER.
+  assert (G : forall L st N N'', L = N ++ N'' -> N <> [] -> In (fold_left advance N st) (tl (run_states st L))).
+  { intros L st N1' N'' -> Hn. destruct N1' as [|a N2]; [congruence|]. cbn [app run_states tl fold_left].
+    clear. revert st a. induction N2 as [|b N3 IH]; intros st a; cbn [fold_left app run_states].
+    - destruct N''; left; reflexivity.
+    - right. apply IH. }
+  apply (G _ sWs (z :: N1) N'); [reflexivity|discriminate].
+Qed.
+
+Lemma end_val_pos z : In z es -> is_end_tag (e_tag z) = true -> 0 < e_val z.
+Proof.
+  intros Hz Ht. unfold is_end_tag in Ht. apply orb_true_iff in Ht as [Ht|Ht]; apply Z.eqb_eq in Ht.
+  - assert (H : In z (tagged tSTOP_END (td_stops td))) by (apply (in_tagged_of_tag td b0 v0 rest Hbpm z tSTOP_END _ Hz Ht); tauto).
+    apply tagged_In' in H as (r & Hr & ->). cbn [mkev e_val]. apply Hpos. left. exact Hr.
+  - assert (H : In z (tagged tDELAY_END (td_delays td))) by (apply (in_tagged_of_tag td b0 v0 rest Hbpm z tDELAY_END _ Hz Ht); tauto).
+    apply tagged_In' in H as (r & Hr & ->). cbn [mkev e_val]. apply Hpos. right. exact Hr.
+Qed.
+
+(* a state reached through an END event is strictly later: its pause lasted *)
+Lemma end_states_later : forall y, In y (tl (run_states sWs R)) -> is_end_tag (s_tag y) = true -> Tws < s_time y.
+Proof.
+  intros y Hy Ht. destruct (In_tl_run_states R sWs y Hy) as (N & N' & ER & Hne & ->).
+  destruct (last_of_nonempty N Hne) as (N0 & z & ->).
+  rewrite fold_left_app in Ht |- *. cbn [fold_left advance s_tag] in Ht.
+  set (P2 := P ++ mkW s :: N0).
+  assert (E2 : es = P2 ++ z :: N') by (unfold P2; rewrite E, ER; repeat rewrite <- app_assoc; reflexivity).
+  assert (Ef : fold_left advance N0 sWs = St' P2) by (unfold sWs, P2, St; rewrite <- fold_left_app, <- app_assoc; reflexivity).
+  cbn [fold_left]. rewrite Ef. replace (advance (St' P2) z) with (St' (P2 ++ [z])) by (rewrite St_last; reflexivity).
+  rewrite (step_time td b0 v0 rest D Hbpm P2 z N' E2), Ht.
+  destruct (end_pairs td b0 v0 rest D Hbpm P2 z N' E2 Ht) as (P' & q & EP & Hq & Hbq & Hv & Hqt).
+  assert (Hsb : s_beat (St' P2) = e_beat z) by (rewrite EP, St_last; cbn [advance s_beat]; exact Hbq).
+  assert (Hz : In z es) by (rewrite E2; apply in_or_app; right; left; reflexivity).
+  pose proof (end_val_pos z Hz Ht) as Hv0.
+  assert (Hge : Tws <= s_time (St' P2)) by (apply (state_ge N0 ([z] ++ N')); rewrite ER, <- app_assoc; reflexivity).
+  rewrite Hsb. setoid_replace ((e_beat z - e_beat z) * state_rate (St' P2)) with 0 by ring. lra.
+Qed.
+
+Lemma sts_beats_sorted : StronglySorted (fun a b => s_beat a <= s_beat b) (sts td v0).
+Proof.
+  unfold sts. assert (G : forall L st, StronglySorted ev_ge L -> (forall x, In x L -> s_beat st <= e_beat x) ->
+                        StronglySorted (fun a b => s_beat a <= s_beat b) (run_states st L)).
+  { induction L as [|x r IH]; intros st Hsort Hbeat; cbn [run_states]; [repeat constructor|].
+    apply StronglySorted_inv in Hsort as [Hsort' Hhd]. rewrite Forall_forall in Hhd.
+    assert (IHr : StronglySorted (fun a b => s_beat a <= s_beat b) (run_states (advance st x) r)).
+    { apply IH; [exact Hsort'|]. intros e' He'. unfold advance; cbn [s_beat]. apply ev_ge_beat. apply Hhd. exact He'. }
+    constructor; [exact IHr|]. apply Forall_forall. intros y Hy.
+    destruct (In_run_states r (advance st x) y Hy) as (N & N' & -> & ->).
+    destruct (Nat.eq_dec (length N) 0) as [L0|L0].
+    - apply length_zero_iff_nil in L0. subst N. cbn [fold_left advance s_beat]. apply Hbeat. left. reflexivity.
+    - assert (Hne : N <> []) by (intro X; rewrite X in L0; simpl in L0; congruence).
+      destruct (last_of_nonempty N Hne) as (N1 & z & ->). rewrite fold_left_app. cbn [fold_left advance s_beat].
+      apply Hbeat. right. apply in_or_app. left. apply in_or_app. right. left. reflexivity. }
+  apply G; [apply events_sorted; exact D|]. intros x Hx. cbn [init_state s_beat]. apply (events_nonneg td D x Hx).
+Qed.
+
+(* at the time the segment's start is reached, the default tag answers the beat of the last state reached at that time,
+   and no state at that time lies on a later beat *)
+Theorem warp_default_furthest d :
+  exists x, In x (sts td v0) /\ s_time x == Tws /\ fst (beat_at_raw (sts td v0) d Tws tSTOP) == s_beat x /\
+            (forall y, In y (sts td v0) -> s_time y == Tws -> s_beat y <= s_beat x).
+Proof.
+  pose proof sorted_all as S. rewrite sts_split3 in S.
+  assert (Stail : times_sorted (sWs :: tl (run_states sWs R))) by (apply SS_app_inv in S as (_ & B & _); exact B).
+  apply StronglySorted_inv in Stail as [Stl Hall]. rewrite Forall_forall in Hall.
+  destruct (split_run (tl (run_states sWs R)) Tws Stl) as (run & post & Etl & Hrun & Hpost); [intros x Hx; apply Hall; exact Hx|].
+  destruct (exists_last (l := sWs :: run) ltac:(discriminate)) as (L' & x & EL).
+  assert (HLt : forall y, In y (sWs :: run) -> s_time y == Tws) by (intros y [<-|Hy]; [reflexivity|apply Hrun; exact Hy]).
+  assert (Hxin : In x (sWs :: run)) by (rewrite EL; apply in_or_app; right; left; reflexivity).
+  assert (Hxtag : (s_tag x <= tSTOP)%Z).
+  { destruct Hxin as [<-|Hx]; [unfold sWs; rewrite St_last; cbn [advance s_tag mkW e_tag]; unfold tWARP, tSTOP; lia|].
+    assert (Hin : In x (tl (run_states sWs R))) by (rewrite Etl; apply in_or_app; left; exact Hx).
+    destruct (is_end_tag (s_tag x)) eqn:Te.
+    - exfalso. pose proof (end_states_later x Hin Te). specialize (Hrun x Hx). lra.
+    - destruct (In_tl_run_states R sWs x Hin) as (N & N' & ER & Hne & Ex). subst x.
+      destruct (last_of_nonempty N Hne) as (N0 & z & ->). rewrite fold_left_app in Te |- *. cbn [fold_left advance s_tag] in Te |- *.
+      assert (Hz : In z es) by (rewrite E, ER; apply in_or_app; right; right; apply in_or_app; left; apply in_or_app; right; left; reflexivity).
+      destruct (tag_cases td b0 v0 rest Hbpm z Hz) as [X|[X|[X|[X|[X|[X|X]]]]]]; rewrite X in *; unfold tWARP, tWARP_END, tBPM, tDELAY, tDELAY_END, tSTOP, tSTOP_END in *; try lia; discriminate Te. }
+  pose proof sts_beats_sorted as SB.
+  exists x.
+  assert (Esplit : sts td v0 = run_states s0 P ++ (L' ++ x :: []) ++ post) by (rewrite sts_split3, Etl, <- EL; cbn [app]; reflexivity).
+  split; [rewrite Esplit; apply in_or_app; right; apply in_or_app; left; apply in_or_app; right; left; reflexivity|].
+  split; [apply HLt; exact Hxin|].
+  split.
+  - rewrite Esplit. destruct pre_cases as [Hpre|[EP T0]].
+    + apply (beat_at_on_state_time (run_states s0 P) L' x [] post d Tws tSTOP).
+      * exact Hpre.
+      * intros y Hy. apply HLt. rewrite EL. exact Hy.
+      * exact Hpost.
+      * exact Hxtag.
+      * intros y [].
+    + rewrite EP. cbn [run_states].
+      replace ([s0] ++ (L' ++ [x]) ++ post) with ([] ++ (([s0] ++ L') ++ x :: []) ++ post) by (cbn [app]; rewrite <- app_assoc; reflexivity).
+      apply (beat_at_on_state_time [] ([s0] ++ L') x [] post d Tws tSTOP).
+      * intros y [].
+      * intros y Hy. rewrite <- app_assoc in Hy. cbn [app] in Hy. destruct Hy as [<-|Hy]; [exact T0|]. apply HLt. rewrite EL. exact Hy.
+      * exact Hpost.
+      * exact Hxtag.
+      * intros y [].
+  - intros y Hy Hty. rewrite Esplit in Hy, SB.
+    apply in_app_or in Hy as [Hy|Hy].
+    + (* before the block: earlier in the list, beats never decrease *)
+      apply SS_app_inv in SB as (_ & _ & C). apply (C y x Hy). apply in_or_app. left. apply in_or_app. right. left. reflexivity.
+    + apply in_app_or in Hy as [Hy|Hy].
+      * apply in_app_or in Hy as [Hy|[<-|[]]]; [|lra].
+        apply SS_app_inv in SB as (_ & B & _). apply SS_app_inv in B as (B1 & _ & _). apply SS_app_inv in B1 as (_ & _ & C).
+        apply (C y x Hy). left. reflexivity.
+      * specialize (Hpost y Hy). lra.
+Qed.
+End Furthest.
 End One.
 End Start.
 
-From SV Require Import Proofs.ZeroTags Proofs.InPause.
+
+(* the time at which a segment's start is reached is what time_at says for (s, WARP) *)
+Lemma time_at_warp_start td b0 v0 rest : dom td -> td_bpms td = (b0, v0) :: rest -> b0 == 0 ->
+  forall segs, segs_props segs ->
+  (forall y, In y (events td) -> e_tag y = tWARP -> exists s e, In (s, e) segs /\ y = mkW s) ->
+  (forall y, In y (events td) -> e_tag y = tWARP_END -> exists s e, In (s, e) segs /\ y = mkWE e) ->
+  (forall s e, In (s, e) segs -> In (mkW s) (events td)) ->
+  (forall s e, In (s, e) segs -> In (mkWE e) (events td)) ->
+  forall s e P R, In (s, e) segs -> events td = P ++ mkW s :: R ->
+  time_at (sts td v0) (init_state td v0) s tWARP == Tws td v0 s P.
+Proof.
+  intros D Hbpm Hb0 segs Hsp HW HWE HinW HinWE s e P R Hseg E.
+  destruct (split_strict td D P (mkW s) R E) as (SP & SR & _).
+  assert (Hs0 : 0 <= s) by exact (events_nonneg td D (mkW s) (HinW s e Hseg)).
+  destruct (Qlt_le_dec 0 s) as [Ps|Zs].
+  - destruct (time_at_cut_gen td b0 v0 rest D Hbpm s tWARP Hs0 (or_introl Ps)) as (Pc & Rc & Ec & HPc & HRc & T).
+    assert (EPc : Pc = P ++ [mkW s]).
+    { apply (cut_unique (P ++ [mkW s]) R Pc Rc s tWARP).
+      - rewrite <- Ec, <- app_assoc. symmetry. exact E.
+      - intros p Hp. apply in_app_or in Hp as [Hp|[<-|[]]]; [|right; split; [reflexivity|cbn [mkW e_tag]; lia]].
+        specialize (SP p Hp). apply ev_lt_spec in SP. cbn [mkW e_beat e_tag] in SP. destruct SP as [X|[X X']]; [left; exact X|right; split; [exact X|lia]].
+      - intros r Hr. specialize (SR r Hr). apply ev_lt_spec in SR. cbn [mkW e_beat e_tag] in SR. destruct SR as [X|[X X']]; [left; exact X|right; split; [exact X|exact X']].
+      - exact HPc.
+      - exact HRc. }
+    rewrite EPc in T. rewrite T. unfold Ecut, Tws, sWs. rewrite St_last. cbn [advance s_beat mkW e_beat]. ring.
+  - assert (Es : s == 0) by lra.
+    assert (EP : P = []).
+    { destruct P as [|p P']; [reflexivity|exfalso]. specialize (SP p (or_introl eq_refl)). apply ev_lt_spec in SP. cbn [mkW e_beat e_tag] in SP.
+      assert (Hp : In p (events td)) by (rewrite E; left; reflexivity).
+      pose proof (events_nonneg td D p Hp) as Hn.
+      destruct SP as [X|[_ X]]; [lra|].
+      destruct (tag_cases td b0 v0 rest Hbpm p Hp) as [T|[T|[T|[T|[T|[T|T]]]]]]; rewrite T in X; unfold tWARP, tWARP_END, tBPM, tDELAY, tDELAY_END, tSTOP, tSTOP_END in X; lia. }
+    rewrite (time_at_beat_compat _ _ s 0 tWARP Es), (time_at_zero_low td b0 v0 rest D Hbpm tWARP) by (unfold tWARP; lia).
+    destruct (warp_state_time td b0 v0 rest D Hbpm segs Hsp HW HWE HinW HinWE s e P R Hseg E) as [Et _].
+    unfold Tws, sWs. rewrite Et, EP. unfold St. cbn [fold_left init_state s_time s_beat]. rewrite Qred_correct, Es. ring.
+Qed.
 
 (* ... stated with time_at: for every coalesced segment start s, beat_at(time_at(s, WARP), WARP) = s *)
 Theorem warp_tag_start_td td b0 v0 rest : dom td -> td_bpms td = (b0, v0) :: rest -> b0 == 0 ->
@@ -190,30 +345,27 @@ Proof.
   intros D Hbpm Hb0. destruct (warp_segments td D) as (segs & Hsp & HW & HWE & HinW & HinWE & Hraw).
   exists segs. split; [exact Hraw|]. intros s e d Hseg.
   pose proof (HinW s e Hseg) as Hin. apply in_split in Hin as (P & R & E).
-  assert (ET : time_at (sts td v0) (init_state td v0) s tWARP == Tws td v0 s P).
-  { destruct (split_strict td D P (mkW s) R E) as (SP & SR & _).
-    assert (Hs0 : 0 <= s) by exact (events_nonneg td D (mkW s) (HinW s e Hseg)).
-    destruct (Qlt_le_dec 0 s) as [Ps|Zs].
-    - destruct (time_at_cut_gen td b0 v0 rest D Hbpm s tWARP Hs0 (or_introl Ps)) as (Pc & Rc & Ec & HPc & HRc & T).
-      assert (EPc : Pc = P ++ [mkW s]).
-      { apply (cut_unique (P ++ [mkW s]) R Pc Rc s tWARP).
-        - rewrite <- Ec, <- app_assoc. symmetry. exact E.
-        - intros p Hp. apply in_app_or in Hp as [Hp|[<-|[]]]; [|right; split; [reflexivity|cbn [mkW e_tag]; lia]].
-          specialize (SP p Hp). apply ev_lt_spec in SP. cbn [mkW e_beat e_tag] in SP. destruct SP as [X|[X X']]; [left; exact X|right; split; [exact X|lia]].
-        - intros r Hr. specialize (SR r Hr). apply ev_lt_spec in SR. cbn [mkW e_beat e_tag] in SR. destruct SR as [X|[X X']]; [left; exact X|right; split; [exact X|exact X']].
-        - exact HPc.
-        - exact HRc. }
-      rewrite EPc in T. rewrite T. unfold Ecut, Tws, sWs. rewrite St_last. cbn [advance s_beat mkW e_beat]. ring.
-    - assert (Es : s == 0) by lra.
-      assert (EP : P = []).
-      { destruct P as [|p P']; [reflexivity|exfalso]. specialize (SP p (or_introl eq_refl)). apply ev_lt_spec in SP. cbn [mkW e_beat e_tag] in SP.
-        assert (Hp : In p (events td)) by (rewrite E; left; reflexivity).
-        pose proof (events_nonneg td D p Hp) as Hn.
-        destruct SP as [X|[_ X]]; [lra|].
-        destruct (tag_cases td b0 v0 rest Hbpm p Hp) as [T|[T|[T|[T|[T|[T|T]]]]]]; rewrite T in X; unfold tWARP, tWARP_END, tBPM, tDELAY, tDELAY_END, tSTOP, tSTOP_END in X; lia. }
-      rewrite (time_at_beat_compat _ _ s 0 tWARP Es), (time_at_zero_low td b0 v0 rest D Hbpm tWARP) by (unfold tWARP; lia).
-      destruct (warp_state_time td b0 v0 rest D Hbpm segs Hsp HW HWE HinW HinWE s e P R Hseg E) as [Et _].
-      unfold Tws, sWs. rewrite Et, EP. unfold St. cbn [fold_left init_state s_time s_beat]. rewrite Qred_correct, Es. ring. }
+  pose proof (time_at_warp_start td b0 v0 rest D Hbpm Hb0 segs Hsp HW HWE HinW HinWE s e P R Hseg E) as ET.
   rewrite (beat_at_raw_compat _ _ _ _ tWARP ET).
   apply (warp_tag_start td b0 v0 rest D Hbpm Hb0 segs Hsp HW HWE HinW HinWE s e P R Hseg E d).
+Qed.
+
+(* ... and the default tag: the furthest beat reached at that time, when stops and delays have positive lengths *)
+Theorem warp_default_furthest_td td b0 v0 rest : dom td -> td_bpms td = (b0, v0) :: rest -> b0 == 0 ->
+  (forall r, In r (td_stops td) \/ In r (td_delays td) -> 0 < snd r) ->
+  exists segs : list (Q * Q),
+    (forall x, in_raw (td_warps td) x <-> exists s e, In (s, e) segs /\ s <= x /\ x < e) /\
+    forall s e d, In (s, e) segs ->
+      let T := time_at (sts td v0) (init_state td v0) s tWARP in
+      exists x, In x (sts td v0) /\ s_time x == T /\ fst (beat_at_raw (sts td v0) d T tSTOP) == s_beat x /\
+                (forall y, In y (sts td v0) -> s_time y == T -> s_beat y <= s_beat x).
+Proof.
+  intros D Hbpm Hb0 Hpos. destruct (warp_segments td D) as (segs & Hsp & HW & HWE & HinW & HinWE & Hraw).
+  exists segs. split; [exact Hraw|]. intros s e d Hseg. cbv zeta.
+  pose proof (HinW s e Hseg) as Hin. apply in_split in Hin as (P & R & E).
+  pose proof (time_at_warp_start td b0 v0 rest D Hbpm Hb0 segs Hsp HW HWE HinW HinWE s e P R Hseg E) as ET.
+  destruct (warp_default_furthest td b0 v0 rest D Hbpm Hb0 segs Hsp HW HWE HinW HinWE s e P R Hseg E Hpos d) as (x & Hx & Tx & Ax & Fx).
+  exists x. split; [exact Hx|]. split; [rewrite ET; exact Tx|]. split.
+  - rewrite (beat_at_raw_compat _ _ _ _ tSTOP ET). exact Ax.
+  - intros y Hy Hty. apply (Fx y Hy). rewrite <- ET. exact Hty.
 Qed.
